@@ -6,6 +6,7 @@ package backlog
 //vf:job C18 quick VF_C18_ReadStep blen=0..3 file=0..1
 //vf:job C18 quick VF_C18_WriteStep blen=0..3 file=0..1
 //vf:job C18 quick VF_C18_Sequential variant=0..4
+//vf:job C18 quick VF_C18_WrapNonPow2
 //vf:job C18 quick VF_C18_Proto readers=1..2 wn=1..2
 //vf:job C18 quick VF_C18_ProtoClose readers=1..2 kind=0..1
 //vf:replayE C18 VF_C18_ReadStep VF_C18_WriteStep VF_C18_Proto VF_C18_ProtoClose
@@ -209,6 +210,32 @@ func VF_C18_Sequential() {
 		vfAssert(r.SeekTo(s) == (s <= 3), "SeekTo/IsValid must agree with the data range")
 	}
 	vfAssertTwin(d[0] == d[1], "twin")
+}
+
+// a 3-unit ring (aligned, not a power of two) over several wrap-arounds: positions concrete, markers symbolic
+func VF_C18_WrapNonPow2() {
+	bl := NewSize(3 * BuffSizeAlign)
+	m := vfBytes("m", 4)
+	chunk := func(n int, a, b byte) []byte {
+		c := make([]byte, n)
+		c[0], c[n-1] = a, b
+		return c
+	}
+	bl.Write(chunk(5000, 1, 2))
+	bl.Write(chunk(9000, m[0], m[1]))   // offsets 5000..13999, crosses 12288
+	bl.Write(chunk(12000, m[2], m[3])) // offsets 14000..25999, wraps twice
+	rp, wp, err := bl.DataRange()
+	vfAssert(err == nil && wp == 26000 && rp == 26000-12288, "data range is not the most recent capacity bytes")
+	buf := make([]byte, 1)
+	n, err := bl.ReadAt(buf, 14000)
+	vfAssert(n == 1 && err == nil && buf[0] == m[2], "byte at offset 14000 of a 3-unit ring")
+	n, err = bl.ReadAt(buf, 25999)
+	vfAssert(n == 1 && err == nil && buf[0] == m[3], "byte at offset 25999 of a 3-unit ring")
+	n, err = bl.ReadAt(buf, 13999)
+	vfAssert(n == 1 && err == nil && buf[0] == m[1], "byte at offset 13999 (still inside the range)")
+	_, err = bl.ReadAt(buf, 13711)
+	vfAssert(errors.Equal(err, ErrInvalidOffset), "overwritten offset must be refused")
+	vfAssertTwin(wp != 26000, "twin")
 }
 
 // readers waiting at the write position are all woken by a write and see the same bytes
